@@ -158,7 +158,7 @@ namespace BitSerializer::Detail
 		else if (mStartDataPtr != mBuffer)
 		{
 			// Squeeze buffer
-			std::memcpy(mBuffer, mStartDataPtr, mEndDataPtr - mStartDataPtr);
+			std::memmove(mBuffer, mStartDataPtr, mEndDataPtr - mStartDataPtr);	// the ranges may overlap
 			mEndDataPtr -= mStartDataPtr - mBuffer;
 			mStartDataPtr = mBuffer;
 		}
